@@ -20,7 +20,7 @@ RULE = (
     "(state = replayed history, canonical key = (point order, edge-datum order), run to the fixed point of the reachable "
     "set; invariants on every transition). part B: complete addressing tables on one general hexahedron per frame: "
     "6 sides and all side pairs for set_patch, 6 sides x flags for project_side, 12 edges x both argument orders + all "
-    "invalid pairs for project_edge, 8 corners, 4 side edges, get_face, get_patches_at_corner; the written file is "
+    "invalid pairs for project_edge, 8 corners, 4 side edges, get_face, get_closest_side / get_closest_face / get_normal_face from viewers at 3 distances outside each side, get_patches_at_corner; the written file is "
     "compared with blockMesh's hex convention. non-trivial = every case (all address a distinct entity)"
 )
 ASSUMPTIONS = ["blockMesh corner/side convention as in mc/blockmesh_ref.py (user guide)"]
@@ -56,6 +56,8 @@ def cases(tier, seed):
                 for p in (False, True):
                     out.append({"part": "B", "frame": fr, "what": "project_side", "side": side, "edges": e, "points": p})
             out.append({"part": "B", "frame": fr, "what": "get_face", "side": side})
+            for dist in (0.05, 0.6, 5.0):
+                out.append({"part": "B", "frame": fr, "what": "closest", "side": side, "dist": dist})
         for s1, s2 in itertools.combinations(SIDES, 2):
             out.append({"part": "B", "frame": fr, "what": "set_patch", "sides": [s1, s2]})
         for c1 in range(8):
@@ -358,6 +360,48 @@ def run_part_b(case):
             bw = [fw[0]] + fw[1:][::-1]
             if got not in (fw, bw):
                 bad("get_face-not-a-ring", f"{side}: corners {got}")
+    elif what == "closest":
+        # a viewer straight outside the centre of one side: get_closest_side / get_closest_face / get_normal_face must
+        # all address that side (asked twice and in both orders on one operation: the queries must not disturb it)
+        side = case["side"]
+        cs = list(bm.FACES[side])
+        centre = pts[cs].mean(axis=0)
+        outward = centre - pts.mean(axis=0)
+        viewer = centre + case["dist"] * outward / np.linalg.norm(outward)
+        other = min(float(np.linalg.norm(viewer - pts[list(bm.FACES[o])].mean(axis=0))) for o in SIDES if o != side)
+        unambiguous = float(np.linalg.norm(viewer - centre)) < 0.8 * other
+
+        def corners_of(face):
+            got = []
+            for p in face.point_array:
+                dd = [float(np.linalg.norm(p - q)) for q in pts]
+                got.append(int(np.argmin(dd)) if min(dd) < 1e-9 else -1)
+            return got
+
+        before = np.array(loft.point_array)
+        for rnd in (1, 2):
+            nf = loft.get_normal_face(viewer)
+            if sorted(corners_of(nf)) != sorted(cs):
+                bad("get_normal_face-wrong-side", f"round {rnd}: viewer outside {side}: face with corners {corners_of(nf)}")
+            elif float(np.dot(nf.normal, viewer - nf.center)) <= 0:
+                bad("get_normal_face-faces-away", f"round {rnd}: {side}: returned face's normal points away from the viewer")
+            if unambiguous:
+                got_side = loft.get_closest_side(viewer)
+                if got_side != side:
+                    bad("get_closest_side-wrong", f"round {rnd}: viewer {case['dist']} outside {side}: {got_side}")
+                cf = loft.get_closest_face(viewer)
+                if sorted(corners_of(cf)) != sorted(cs):
+                    bad("get_closest_face-wrong", f"round {rnd}: viewer outside {side}: corners {corners_of(cf)}")
+        if not np.array_equal(before, np.array(loft.point_array)):
+            bad("query-moved-the-operation", f"{side}: point_array changed by the queries")
+        if unambiguous:
+            loft.set_patch(loft.get_closest_side(viewer), "pp")
+            d = write_parse(loft)
+            c_of = corner_of_vertex(d, pts)
+            expect_clean(d, allow=("boundary",))
+            got = sorted(sorted(c_of[v] for v in quad) for p in d["boundary"] if p["name"] == "pp" for quad in p["faces"])
+            if got != [sorted(cs)]:
+                bad("set_patch-wrong-side", f"closest side of a viewer outside {side}: quads {got}")
     elif what == "patches_at_corner":
         for side, name in case["assign"]:
             loft.set_patch(side, name)
